@@ -99,10 +99,14 @@ impl Doc {
                 body.extend_from_slice(sep);
             }
         }
+        // "tight": single spaces between the numbers, nothing between the last number and the first member
+        let tight = hdr_sep == "tight";
+        let hdr_sep = if tight { " " } else { hdr_sep };
         let mut header = String::new();
         for (i, (nr, _)) in members.iter().enumerate() {
             write!(header, "{}{}{}{}", nr, hdr_sep, offs[i], hdr_sep).unwrap();
         }
+        if tight { header.pop(); }
         let first = header.len();
         let mut data = header.into_bytes();
         data.extend_from_slice(&body);
